@@ -68,6 +68,11 @@ func (r *body) Read(b []byte) (int, error) {
 	if err := r.checkContentLengthViolation(); err != nil {
 		return n, err
 	}
+	if err == io.EOF && r.hasContentLength && r.remainingContentLength > 0 {
+		// The stream ended before the declared Content-Length was received,
+		// see section 4.1.2 of RFC 9114.
+		return n, io.ErrUnexpectedEOF
+	}
 	return n, maybeReplaceError(err)
 }
 
